@@ -163,17 +163,30 @@ def prepare(pid, ob=None, quiet=False):
         if not os.path.exists(audit) or open(audit).read() != content:
             open(audit, "w").write(content)
         t0 = time.time()
-        r = subprocess.run(["lake", "build", f"RexModel.Props.{pid}", "rexdriver"], cwd=LEAN, capture_output=True, text=True)
-        ob.build_s = time.time() - t0
+        r = subprocess.run(["lake", "build", f"RexModel.Props.{pid}"], cwd=LEAN, capture_output=True, text=True)
         ob.build_log = (r.stdout + r.stderr)[-6000:]
-        if r.returncode != 0:
+        props_ok = r.returncode == 0
+        if not props_ok:
             errs = [l for l in (r.stdout + r.stderr).splitlines() if "error" in l.lower()][:8]
-            # which module failed?
-            failed_driver_only = all("Driver" in l for l in errs if "RexModel" in l) and any("Driver" in l for l in errs)
             ob.broken.append(dict(kind="lean_build", what=f"RexModel.Props.{pid}", detail="\n".join(errs) or ob.build_log[-1500:]))
-            ob.driver_ok = False
-        else:
-            ob.driver_ok = True
+        # the executable model (one binary for all properties): a failure only concerns this property if one of the
+        # failing files belongs to this property's cone (its proof sources, its driver module, the shared machine)
+        rd = subprocess.run(["lake", "build", "rexdriver"], cwd=LEAN, capture_output=True, text=True)
+        ob.build_s = time.time() - t0
+        ob.driver_ok = rd.returncode == 0
+        if rd.returncode != 0:
+            out = rd.stdout + rd.stderr
+            failing = set(re.findall(r"(RexModel/[\w/]+\.lean|Driver/[\w/]+\.lean)", "\n".join(l for l in out.splitlines() if "error" in l.lower())))
+            cone = {m.replace(".", "/") + ".lean" for m in lean_sources_for(pid)} | {f"RexModel/Driver/{pid}.lean", "RexModel/Driver/Basic.lean", "Driver/Main.lean"}
+            if pid in ("C02", "C03", "C04"):
+                cone |= {"RexModel/Driver/Async.lean", "RexModel/Async/Machine.lean"}
+            mine = sorted(failing & cone)
+            if mine and props_ok:
+                errs = [l for l in out.splitlines() if "error" in l.lower() and any(f in l for f in mine)][:6]
+                ob.broken.append(dict(kind="driver_build", what=",".join(mine), detail="\n".join(errs)))
+            elif not mine:
+                ob.driver_note = "driver build failed in modules of other properties: " + ",".join(sorted(failing))[:300]
+        if props_ok:
             r = subprocess.run(["lake", "env", "lean", audit], cwd=LEAN, capture_output=True, text=True)
             out = r.stdout + r.stderr
             cur = None
